@@ -125,10 +125,37 @@ func runCheck(repo, prop, tier string, rest []string) int {
 			direct[k] = true
 		}
 	}
+	// 1b. a precondition tagged with the property is an obligation of every caller: the contracted callers of
+	// such a function are verified as well, but only their tagged `call.<f>.requires` obligations count here
+	// (the rest of a caller serves the properties its own clauses name, and its callees are not followed)
+	callerOnly := map[string]bool{}
+	for _, k := range e.contracts.Order {
+		c := e.contracts.Funcs[k]
+		if c.Extern {
+			continue
+		}
+		tagged := false
+		for _, rq := range c.Requires {
+			if hasTag(rq.Tags, prop) {
+				tagged = true
+			}
+		}
+		if !tagged {
+			continue
+		}
+		for _, ck := range contractedCallersOf(e, k) {
+			if !direct[ck] {
+				callerOnly[ck] = true
+			}
+		}
+	}
 	// 2. verify, following contract dependencies (a contract that is assumed must be proved)
 	done := map[string]bool{}
 	var queue []string
 	for k := range direct {
+		queue = append(queue, k)
+	}
+	for k := range callerOnly {
 		queue = append(queue, k)
 	}
 	sort.Strings(queue)
@@ -151,6 +178,12 @@ func runCheck(repo, prop, tier string, rest []string) int {
 			res.closure = append(res.closure, shortName(k))
 		}
 		for _, o := range run.obligs {
+			if callerOnly[k] && !direct[k] {
+				if hasTag(o.Tags, prop) && strings.HasPrefix(o.Kind, "call.") {
+					res.obligs = append(res.obligs, o)
+				}
+				continue
+			}
 			if direct[k] && len(o.Tags) > 0 && !hasTag(o.Tags, prop) {
 				continue // serves other properties only
 			}
@@ -173,6 +206,9 @@ func runCheck(repo, prop, tier string, rest []string) int {
 			res.assumptions[n] = true
 		}
 		var deps []string
+		if callerOnly[k] && !direct[k] {
+			continue
+		}
 		for d := range e.deps[shortName(k)] {
 			deps = append(deps, d)
 		}
